@@ -34,8 +34,9 @@ func genRing(p *simkit.Plan, r *simkit.Rand, tier string) {
 		case 4, 5:
 			// readnfrom n, with a reader holding `have` bytes, returning at
 			// most `short` per call, and ending with mode (0 nil-then-EOF,
-			// 1 n+EOF together, 2 error after `have` bytes).
-			p.Ops = append(p.Ops, simkit.Op{Actor: "c", Kind: "readnfrom", N: []int64{int64(r.Range(0, m)), int64(r.Range(0, m+2)), int64(r.Range(1, 4)), int64(r.Intn(3))}})
+			// 1 n+EOF together, 2 error after `have` bytes, 3 the last bytes
+			// together with a non-EOF error, as the io.Reader contract allows).
+			p.Ops = append(p.Ops, simkit.Op{Actor: "c", Kind: "readnfrom", N: []int64{int64(r.Range(0, m)), int64(r.Range(0, m+2)), int64(r.Range(1, 4)), int64(r.Intn(4))}})
 		case 6:
 			// writeto a writer accepting at most `short` per call and failing
 			// after `limit` bytes (-1 never).
@@ -64,7 +65,7 @@ type peerReader struct {
 func (p *peerReader) Read(b []byte) (int, error) {
 	p.calls++
 	if len(p.data) == 0 {
-		if p.mode == 2 {
+		if p.mode == 2 || p.mode == 3 {
 			return 0, errPeer
 		}
 		return 0, io.EOF
@@ -75,6 +76,9 @@ func (p *peerReader) Read(b []byte) (int, error) {
 	p.consumed += n
 	if len(p.data) == 0 && p.mode == 1 {
 		return n, io.EOF
+	}
+	if len(p.data) == 0 && p.mode == 3 {
+		return n, errPeer
 	}
 	return n, nil
 }
@@ -202,6 +206,14 @@ func execRing(plan *simkit.Plan) *simkit.Result {
 				model = append(model, data[:min(take, len(data))]...)
 				// Error expectations.
 				switch {
+				case take == want && mode == 3 && have == want:
+					// The reader handed over the last requested bytes together
+					// with its error: the request is complete, and surfacing the
+					// error or not are both accurate.
+					if err != nil && err != errPeer {
+						bad("readnfrom-error", "ReadNFrom", "op %d ReadNFrom read all %d requested bytes and returned %v", i, want, err)
+					}
+					s.Count("probe.ring_data_with_error", 1)
 				case take == want:
 					if err != nil {
 						bad("readnfrom-error", "ReadNFrom", "op %d ReadNFrom read all %d requested bytes but returned %v", i, want, err)
@@ -222,8 +234,11 @@ func execRing(plan *simkit.Plan) *simkit.Result {
 				default:
 					// Reader ran out first.
 					wantErr := io.EOF
-					if mode == 2 {
+					if mode == 2 || mode == 3 {
 						wantErr = errPeer
+					}
+					if mode == 3 && take > 0 {
+						s.Count("probe.ring_data_with_error", 1)
 					}
 					if err != wantErr {
 						bad("readnfrom-error", "ReadNFrom", "op %d ReadNFrom got %d of %d requested bytes from a reader that ended (mode %d) and returned %v, expected %v", i, take, want, mode, err, wantErr)
